@@ -1,11 +1,12 @@
 (* C05 — the terminal is restored on every exit path (control half: on every path to a return,
    the Run thread's last mode-affecting action is restoreTerminalState; the mode half - that
    restoreTerminalState resets every mode from any tracked state - is in C05_modes.v). *)
-From Coq Require Import List Bool NArith Arith.
+From Coq Require Import List Bool NArith Arith String.
 Import ListNotations.
 From BT Require Import Model.Skel Model.SkelTie Proof.SkelCert Proof.SkelProofs.
 
-Theorem C05_tie : G = guards_of_gen /\ g_shutdown_restores G = true /\ g_startup_fail_restores G = true /\ nothing_unsupported = true.
+Theorem C05_tie : G = guards_of_gen /\ g_shutdown_restores G = true /\ g_startup_fail_restores G = true /\ nothing_unsupported = true /\
+  shapes_ok_for ["shutdown"; "Kill"; "recoverFromPanic"; "handlePanic"]%string = true.
 Proof. vm_compute. repeat split. Qed.
 Print Assumptions C05_tie.
 
